@@ -117,7 +117,7 @@ EQ_TYPES = [(['StandardHigh'], 2, 5), (['Omaha', 'Omaha8'], 4, 5), (['StandardHi
 def equity_items(run: Run, rng, tier):
     from pokerkit import calculate_equities, Deck
     items = []
-    n_items = 160 if tier == 'quick' else 2500
+    n_items = 260 if tier == 'quick' else 4000
     for _ in range(n_items):
         types, k, b = rng.choice(EQ_TYPES)
         n = rng.randint(2, 4 if k <= 5 else 3)
